@@ -46,8 +46,8 @@ var (
 )
 
 const sectionRule = "each case: a fresh partition src=c<N> of ONE shared real in-process server, filled BEFORE the worker starts with N events " +
-	"(N in {1,2,3,10,999,1000,1001,2500}; page limit 1000; N=0 at worker start is excluded by construction: a worker whose partition does not exist yet " +
-	"loses its first query in the server's cursor layer — inherited findings #11/#35, not forwarder logic), messages m<i>, timestamps i+1; " +
+	"(N in {0,1,2,3,10,999,1000,1001,2500}; page limit 1000; N=0: the partition does not exist when the worker starts — its first real polls are answered empty after the wait (#11 is fixed) " +
+	"with the server's next request for no partition, which loses the query text (#35, open, C03's): the worker must keep its own request and deliver everything once the partition appears), messages m<i>, timestamps i+1; " +
 	"the real forwarder session (StartVerifSession) with a scripted api.Client wrapper, a scripted sink and a per-case in-memory storage; " +
 	"script = list of: query outcomes lost | resplost (server really executes the request, answer dropped) | srverr (QueryResult.Err) — these three leave a junk event and a junk NextQueryRequest in the result, which must be ignored — | empty (no events, zero NextQueryRequest) | " +
 	"ok+accept | ok+reject (real page, sink accepts/rejects), and harness actions executed while the worker is blocked in the wrapper (no query of the partition in flight): " +
@@ -86,7 +86,7 @@ func isSleepingFault(a string) bool {
 }
 
 var growSizes = []int{1, 1, 2, 3, 7, 1000, 1001, 1500}
-var partSizes = []int{1, 1, 2, 3, 3, 10, 10, 999, 1000, 1001, 2500}
+var partSizes = []int{0, 0, 1, 1, 2, 3, 3, 10, 10, 999, 1000, 1001, 2500}
 
 // genCase generates a script together with a simulation of the intended behaviour (only to place tails, growth and
 // session ends sensibly and to bound the number of 5 s sleeps; the oracle never uses this simulation).
@@ -103,6 +103,19 @@ func genCase(rng *vh.Rng, maxFaults, maxSteps int) fcase {
 		}
 		total += k
 		s = append(s, fmt.Sprintf("grow %d", k))
+	}
+	if n == 0 {
+		// the partition does not exist yet when the worker starts: one or two real polls over no partition (each answers
+		// empty after the wait, with the server's next request for "no partition"), then the partition appears
+		for k := rng.Range(1, 2); k > 0 && faults < budget; k-- {
+			s = append(s, "ok+accept")
+			faults++
+		}
+		if rng.Chance(1, 3) && faults < budget {
+			s = append(s, "empty")
+			faults++
+		}
+		grow()
 	}
 	// one query outcome; false = nothing could be appended without exceeding the sleep budget
 	query := func() bool {
@@ -630,14 +643,16 @@ func runCase(srv *lrsrv.Srv, in fcase) *run {
 	}
 	c.cli = cli
 	defer cli.Close()
-	if in.N < 1 {
-		c.note("n < 1 is excluded by construction (inherited findings #11/#35); using n=1")
-		in.N = 1
-		c.in.N = 1
+	if in.N < 0 {
+		in.N = 0
+		c.in.N = 0
 	}
-	if err := c.write(in.N); err != nil {
-		c.note("initial write failed: %v", err)
-		return c
+	// n = 0: the partition does not exist when the worker starts (it appears with the first "grow")
+	if in.N > 0 {
+		if err := c.write(in.N); err != nil {
+			c.note("initial write failed: %v", err)
+			return c
+		}
 	}
 	nSleep := 0
 	for _, a := range in.Script {
@@ -1033,9 +1048,9 @@ func readCorpusCase(path string) (fcase, bool) {
 		if json.Unmarshal(w.Input, &c) != nil {
 			return fcase{}, false
 		}
-		return c, c.N > 0
+		return c, c.N >= 0 && len(c.Script) > 0
 	}
-	return w.fcase, w.fcase.N > 0
+	return w.fcase, w.fcase.N >= 0 && len(w.fcase.Script) > 0
 }
 
 // fixed cases: the boundaries named in the design (page limit, reject then retry, crash after an unpersisted batch…)
